@@ -39,6 +39,10 @@ type c10Case struct {
 	Switch    string `json:"switch"`    // none | addr | method | method-case | unrelated
 	Allowance string `json:"allowance"` // none | exact | short | ample
 	Amt       int64  `json:"amt"`
+	// further switch entries that do not cover the call (other methods of the same precompile,
+	// the other precompile, unknown addresses); the covering entry is inserted at PadPos
+	Pads   []string `json:"pads"`
+	PadPos int      `json:"pad_pos"`
 }
 
 var c10Methods = []string{
@@ -55,6 +59,8 @@ func genC10(t *rapid.T) c10Case {
 		Switch:    rapid.SampledFrom([]string{"none", "none", "none", "addr", "method", "method-case", "unrelated"}).Draw(t, "switch"),
 		Allowance: rapid.SampledFrom([]string{"none", "exact", "short", "ample"}).Draw(t, "allowance"),
 		Amt:       rapid.Int64Range(1, 500).Draw(t, "amt"),
+		Pads:      rapid.SliceOfN(rapid.SampledFrom([]string{"same-other-method", "same-other-method-2", "other-addr", "other-method", "unknown"}), 0, 3).Draw(t, "pads"),
+		PadPos:    rapid.IntRange(0, 3).Draw(t, "padPos"),
 	}
 }
 
@@ -263,6 +269,56 @@ func runC10(c c10Case, rec *ev.Recorder) *Failure {
 	case "unrelated":
 		disabled = []string{"0x0000000000000000000000000000000000009999", fmt.Sprintf("%s/%s", strings.ToLower(target.Hex()), "deadbeef")}
 	}
+	if len(c.Pads) > 0 {
+		other, otherABI := sim.CrosschainAddr, crosschaintypes.GetABI()
+		sameABI := stakingtypes.GetABI()
+		if parts[0] == "crosschain" {
+			other, otherABI, sameABI = sim.StakingAddr, stakingtypes.GetABI(), crosschaintypes.GetABI()
+		}
+		var sameOthers, otherMethods []string
+		for name, m := range sameABI.Methods {
+			if name != parts[1] {
+				sameOthers = append(sameOthers, fmt.Sprintf("%s/%x", strings.ToLower(target.Hex()), m.ID))
+			}
+		}
+		for _, m := range otherABI.Methods {
+			otherMethods = append(otherMethods, fmt.Sprintf("%s/%x", strings.ToLower(other.Hex()), m.ID))
+		}
+		sortStrings(sameOthers)
+		sortStrings(otherMethods)
+		var pads []string
+		seen := map[string]bool{}
+		for i, p := range c.Pads {
+			var e string
+			switch p {
+			case "same-other-method":
+				e = sameOthers[(c.Variant+i)%len(sameOthers)]
+			case "same-other-method-2":
+				e = sameOthers[(c.Variant+i+3)%len(sameOthers)]
+			case "other-addr":
+				e = strings.ToLower(other.Hex())
+			case "other-method":
+				e = otherMethods[(c.Variant+i)%len(otherMethods)]
+			default:
+				e = fmt.Sprintf("0x00000000000000000000000000000000000077%02x", i)
+			}
+			if !seen[e] {
+				seen[e] = true
+				pads = append(pads, e)
+			}
+		}
+		pos := c.PadPos
+		if pos > len(pads) {
+			pos = len(pads)
+		}
+		merged := append([]string{}, pads[:pos]...)
+		for _, d := range disabled {
+			if !seen[d] {
+				merged = append(merged, d)
+			}
+		}
+		disabled = append(merged, pads[pos:]...)
+	}
 	if disabled != nil {
 		if r := f.RunMsg(ctx, &fxgovtypes.MsgUpdateSwitchParams{Authority: sim.GovAddr.String(), Params: fxgovtypes.SwitchParams{DisablePrecompiles: disabled}}); !r.OK() {
 			return failf("harness", "switch: %v", r.Err)
@@ -399,7 +455,7 @@ func runC10(c c10Case, rec *ev.Recorder) *Failure {
 		}
 	}
 	nontrivial := namesVictim || nonCall || c.Switch != "none" || c.Actor == "contract-via-victim"
-	rec.Case(ev.Sig(c.Actor, c.CallKind, c.Method, c.Variant, c.Switch, c.Allowance, success), nontrivial, "method:"+c.Method, "actor:"+c.Actor, fmt.Sprintf("kind:%d", c.CallKind), "switch:"+c.Switch, fmt.Sprintf("success:%v", success))
+	rec.Case(ev.Sig(c.Actor, c.CallKind, c.Method, c.Variant, c.Switch, c.Allowance, success), nontrivial, "method:"+c.Method, "actor:"+c.Actor, fmt.Sprintf("kind:%d", c.CallKind), "switch:"+c.Switch, fmt.Sprintf("switch-entries:%d", len(disabled)), fmt.Sprintf("success:%v", success))
 	if nontrivial && rec.WantSample() {
 		rec.Sample(c)
 	}
